@@ -237,8 +237,25 @@ func runC08(c *ctx) error {
 			plugins[j], plugins[k] = plugins[k], plugins[j]
 		}
 		b.WriteString("steps:\n  - command: x\n    plugins:\n")
-		for _, p := range plugins {
-			fmt.Fprintf(&b, "      %s: {opt: 1}\n", p)
+		if rng.Intn(3) == 0 {
+			// the list form with items that name several plugins each (the forgotten-dash spelling): the
+			// plugins of one item come out in the order written, items in list order
+			c.res.Hist("documents.plugins-list-with-multi-entry-items")
+			for pi := 0; pi < len(plugins); {
+				n := 1 + rng.Intn(3)
+				for j := 0; j < n && pi < len(plugins); j++ {
+					lead := "        "
+					if j == 0 {
+						lead = "      - "
+					}
+					fmt.Fprintf(&b, "%s%s: {opt: 1}\n", lead, plugins[pi])
+					pi++
+				}
+			}
+		} else {
+			for _, p := range plugins {
+				fmt.Fprintf(&b, "      %s: {opt: 1}\n", p)
+			}
 		}
 		fmt.Fprintf(&b, "    custom_field: %s\n", nb)
 		fmt.Fprintf(&b, "  - unknown_kind_of_step: %s\n", nb)
@@ -333,7 +350,7 @@ func runC08(c *ctx) error {
 							want = append(want, (&pipeline.Plugin{Source: s}).FullSource())
 						}
 						if !reflect.DeepEqual(got, want) {
-							c.res.Fail(core.OracleFailure{What: "plugins written as one mapping do not come out in document order (" + leg + ")", Input: desc, Got: fmt.Sprint(got), Want: fmt.Sprint(want)})
+							c.res.Fail(core.OracleFailure{What: "plugins written as one mapping / as list items naming several plugins do not come out in document order (" + leg + ")", Input: desc, Got: fmt.Sprint(got), Want: fmt.Sprint(want)})
 						}
 					}
 					if cv, ok := s0.Get("custom_field"); ok {
